@@ -113,26 +113,36 @@ DeclSym(N, q, k) == LET j == k - q \div 4 IN IF j >= 0 /\ j < N THEN j ELSE -1
 RECURSIVE MatR(_, _, _)
 MatR(f, i, acc) == IF i > Len(f) THEN acc ELSE MatR(f, i + 1, Append(acc, f[i]))
 Mat(f) == MatR(f, 1, <<>>)
+\* the kernel's DFT (Fix!DftW) with an explicit twiddle table and explicit results
+TwT(N) == Mat([j \in 1..N |-> CExp(RQ(j - 1, N))])
+DftM(x, sgn) == LET N == Len(x)
+                    T == TwT(N)
+                IN IF N = 0 THEN <<>> ELSE Mat(DftW(x, sgn, [j \in 0..(N - 1) |-> T[j + 1]]))
+FDftM(x) == DftM(x, -1)
+IDftM(x) == LET y == DftM(x, 1) IN Mat([k \in 1..Len(x) |-> CDivSmall(y[k], Len(x))])
+
 \* time_shift: fft, multiply bin k by exp(-2 pi i * shift * fftfreq[k]), ifft
 Delay(x, q) ==
   LET N == Len(x)
-      X == FDft(x)
-  IN IDft([k \in 1..N |-> CMul(X[k], CExp(RQ(-(FftBin(k - 1, N) * q), 4 * N)))])
-RealPart(x) == [k \in 1..Len(x) |-> C(x[k].re, FZero)]
+      X == FDftM(x)
+  IN IDftM(Mat([k \in 1..N |-> CMul(X[k], CExp(RQ(-(FftBin(k - 1, N) * q), 4 * N)))]))
+RealPart(x) == Mat([k \in 1..Len(x) |-> C(x[k].re, FZero)])
 \* real data: the code keeps `shifted.real`
 DelayReal(x, q) == RealPart(Delay(RealPart(x), q))
-ZeroAt(y, Z) == [k \in 1..Len(y) |-> IF (k - 1) \in Z THEN CZero ELSE y[k]]
+ZeroAt(y, Z) == Mat([k \in 1..Len(y) |-> IF (k - 1) \in Z THEN CZero ELSE y[k]])
 
 \* freq_shift: multiply sample n by exp(2 pi i * ft * n), ft = q/(4N) cycles per sample
-Mix(x, q) == LET N == Len(x) IN [n \in 1..N |-> CMul(x[n], CExp(RQ(q * (n - 1), 4 * N)))]
+Mix(x, q) == LET N == Len(x) IN Mat([n \in 1..N |-> CMul(x[n], CExp(RQ(q * (n - 1), 4 * N)))])
 \* natural (fft) index of position j of the fftshift'ed spectrum
 NatIdx(j, N) == (j + N - N \div 2) % N
 ShiftedIdx(k, N) == (k + N \div 2) % N
 \* spectrum (natural order) after the zero loop on shifted positions Z
-ZeroBins(X, Z) == [k \in 1..Len(X) |-> IF ShiftedIdx(k - 1, Len(X)) \in Z THEN CZero ELSE X[k]]
+ZeroBins(X, Z) == Mat([k \in 1..Len(X) |-> IF ShiftedIdx(k - 1, Len(X)) \in Z THEN CZero ELSE X[k]])
+\* freq_shift as a whole: mix, fft, zero the bins in Z (shifted positions), ifft
+FreqShifted(x, q, Z) == IDftM(ZeroBins(FDftM(Mix(x, q)), Z))
 
 \* test columns: small non-zero integers, different for every (N, c)
 ColRe(N, c, n) == LET v == (((n * n + 3 * n * c + 5 * c + 2 * N + 1) * 7) % 13) - 6 IN IF v = 0 THEN 7 ELSE v
 ColIm(N, c, n) == LET v == (((n * n * c + 2 * n + 3 * c + N + 4) * 5) % 11) - 5 IN IF v = 0 THEN -6 ELSE v
-Col(N, c) == [n \in 1..N |-> CFromInts(ColRe(N, c, n - 1), ColIm(N, c, n - 1))]
+Col(N, c) == Mat([n \in 1..N |-> CFromInts(ColRe(N, c, n - 1), ColIm(N, c, n - 1))])
 =============================================================================
